@@ -72,16 +72,23 @@ NestedFlatten(s, top) ==
   \E n \in Reach(s, {top}, {}) : \E f \in Range(MsgByName(s, n).fields) :
      /\ f.ann.flatten /\ HasMsg(s, f.ref)
      /\ LET C == MsgByName(s, f.ref) IN (\E g \in Range(C.fields) : g.ann.flatten) \/ (\E o \in Range(C.oneofs) : o.hasCfg)
+\* well-known types whose proto3 JSON form is a scalar, not an object
+WktScalarLike == {"google.protobuf.Duration", "google.protobuf.FieldMask", "google.protobuf.StringValue", "google.protobuf.BytesValue",
+                  "google.protobuf.Int32Value", "google.protobuf.Int64Value", "google.protobuf.UInt32Value", "google.protobuf.UInt64Value",
+                  "google.protobuf.FloatValue", "google.protobuf.DoubleValue", "google.protobuf.BoolValue", "google.protobuf.Value",
+                  "google.protobuf.ListValue"}
+WktScalarReachable(s, top) == \E n \in Reach(s, {top}, {}) : \E f \in Range(MsgByName(s, n).fields) : f.kind = "message" /\ f.ref \in WktScalarLike
 CheckHow(e) ==
   IF e.hasVal /\ ~ContractOK(e)
-  THEN (IF "D_oneof_schema" \in Dev /\ OneofCfgReachable(schema, e.val.type) THEN "D_oneof_schema"
+  THEN (IF "D_openapi_wkt_as_objects" \in Dev /\ WktScalarReachable(schema, e.val.type) THEN "D_openapi_wkt_as_objects"
+        ELSE IF "D_oneof_schema" \in Dev /\ OneofCfgReachable(schema, e.val.type) THEN "D_oneof_schema"
         ELSE IF "D_openapi_nested_flatten" \in Dev /\ NestedFlatten(schema, e.val.type) THEN "D_openapi_nested_flatten"
         ELSE "contract_form_invalid")
   ELSE IF WireOK(e) THEN "ok"
   ELSE IF e.hasVal /\ Canon(e.json) # Enc(schema, e.val) THEN "wire_not_contract_form"   \* C05's business, not the document's
   ELSE "wire_invalid"
 TCheck == /\ IsEvent("Check")
-          /\ "C06" \in Enforce => LET h == CheckHow(Tr[l]) IN Say(h \in {"ok", "wire_not_contract_form", "D_oneof_schema", "D_openapi_nested_flatten"}, h)
+          /\ "C06" \in Enforce => LET h == CheckHow(Tr[l]) IN Say(h \in {"ok", "wire_not_contract_form", "D_oneof_schema", "D_openapi_nested_flatten", "D_openapi_wkt_as_objects"}, h)
           /\ UNCHANGED <<sl, doc, tv>>
 
 \* C19: rule semantics (SebufRules) vs what the emitted constraints accept (instrument verdict)
